@@ -8,10 +8,11 @@
 //! * `Mode::Strict`  — the semantics itself.
 //! * `Mode::Lenient` — the ONE documented liberty of the optimiser: a *builtin* arithmetic
 //!   failure (`#Int+ - * /` overflow, division by zero) whose result is never needed may be
-//!   skipped. Modelled as a deferred failure: the failing builtin yields a poison value which
-//!   raises `err:arith` as soon as anything needs it — a branch condition, a refutable pattern,
-//!   being passed to / returned from a (non-constructor) function call, or being part of the
-//!   program's result. Calls are never deferred: whatever fails inside a callee (also builtin
+//!   skipped. Modelled as a deferred failure: the failing builtin yields a poison value; a
+//!   builtin construct that looks at it (operator, branch condition, refutable pattern,
+//!   projection) becomes a deferred failure itself without evaluating further; it is raised as
+//!   `err:arith` as soon as it crosses a call boundary — being the function, an argument or the
+//!   result of a (non-constructor) call — or is part of the program's result. Calls are never deferred: whatever fails inside a callee (also builtin
 //!   arithmetic whose result the callee returns) fails at the call. User `error` and unmatched
 //!   patterns are never deferred.
 //!   The lenient outcome over-approximates what any dead-binding elimination that respects the
@@ -33,6 +34,9 @@ pub enum Err {
     User(String),
     Fuel,
     Wrong(&'static str),
+    /// internal (lenient mode): the construct being evaluated needs a deferred failure and
+    /// becomes a deferred failure itself
+    Defer,
 }
 
 pub enum Val {
@@ -147,6 +151,15 @@ impl Interp {
         }
     }
 
+    /// A builtin construct (branch, pattern, projection) looks at a value: in lenient mode the
+    /// whole construct becomes the deferred failure (it contains no call that was reached).
+    fn peek(&self, v: &V) -> R<()> {
+        match &**v {
+            Val::Poison => Err(Err::Defer),
+            _ => Ok(()),
+        }
+    }
+
     /// Everything reachable through data (not through closures) is needed.
     pub fn force_deep(&self, v: &V) -> R<()> {
         match &**v {
@@ -180,21 +193,21 @@ impl Interp {
                 self.match_pat(q, v, env)
             }
             Pat::Int(n) => {
-                self.force(v)?;
+                self.peek(v)?;
                 match &**v {
                     Val::Int(m) => Ok(if n == m { Some(env) } else { None }),
                     _ => Ok(None),
                 }
             }
             Pat::Str(s) => {
-                self.force(v)?;
+                self.peek(v)?;
                 match &**v {
                     Val::Str(t) => Ok(if s == t { Some(env) } else { None }),
                     _ => Ok(None),
                 }
             }
             Pat::Ctor { tag, args, .. } => {
-                self.force(v)?;
+                self.peek(v)?;
                 match &**v {
                     Val::Data(t, vs) if t == tag => {
                         let mut env = env;
@@ -225,7 +238,7 @@ impl Interp {
     }
 
     fn match_fields(&self, fs: &[(usize, &Pat)], v: &V, env: Env) -> R<Option<Env>> {
-        self.force(v)?;
+        self.peek(v)?;
         match &**v {
             Val::Data(_, vs) => {
                 let mut env = env;
@@ -262,7 +275,7 @@ impl Interp {
     }
 
     fn truth(&self, v: &V, what: &'static str) -> R<bool> {
-        self.force(v)?;
+        self.peek(v)?;
         match &**v {
             Val::Data(1, _) => Ok(true),
             Val::Data(0, _) => Ok(false),
@@ -271,6 +284,13 @@ impl Interp {
     }
 
     pub fn eval(&mut self, env: &Env, e: &Expr) -> R<V> {
+        match self.eval_inner(env, e) {
+            Err(Err::Defer) => Ok(Rc::new(Val::Poison)),
+            r => r,
+        }
+    }
+
+    fn eval_inner(&mut self, env: &Env, e: &Expr) -> R<V> {
         self.tick()?;
         match e {
             Expr::Int(n) => Ok(Rc::new(Val::Int(*n))),
@@ -358,7 +378,7 @@ impl Interp {
                     None => vec![],
                     Some(be) => {
                         let bv = self.eval(env, be)?;
-                        self.force(&bv)?;
+                        self.peek(&bv)?;
                         match &*bv {
                             Val::Data(_, vs) => vs.clone(),
                             _ => return Err(Err::Wrong("record-base")),
@@ -377,7 +397,7 @@ impl Interp {
             }
             Expr::Proj(r, _, i) => {
                 let v = self.eval(env, r)?;
-                self.force(&v)?;
+                self.peek(&v)?;
                 match &*v {
                     Val::Data(_, vs) => vs.get(*i).cloned().ok_or(Err::Wrong("proj")),
                     _ => Err(Err::Wrong("proj")),
@@ -508,6 +528,7 @@ pub fn render(r: &R<V>) -> String {
         Err(Err::User(m)) => format!("err:user {}", gv::quote(m)),
         Err(Err::Fuel) => "fuel".into(),
         Err(Err::Wrong(w)) => format!("wrong:{}", w),
+        Err(Err::Defer) => "wrong:defer".into(),
     }
 }
 
